@@ -296,3 +296,80 @@ fn c02_pingreq() {
     check_steps(&mut steps, &w, no_field);
     std::mem::forget(r); std::mem::forget(steps);
 }
+
+// ------------------------------------------------------------------------------------------------
+// H4 the encode loop: the byte stream does not depend on how the output buffer space is sized
+// ------------------------------------------------------------------------------------------------
+
+/// Runs the real Encoder::encode loop over fresh destination buffers of capacity `cap` until Complete, collecting the output.
+fn drain(enc: &mut Encoder, packet: &MqttPacket, cap: usize, out: &mut [u8; 24]) -> usize {
+    let mut n = 0usize;
+    let mut rounds = 0;
+    loop {
+        let mut dest: Vec<u8> = Vec::with_capacity(cap);
+        let r = enc.encode(packet, &mut dest);
+        let done = match &r { Ok(EncodeResult::Complete) => true, Ok(EncodeResult::Full) => false, Err(_) => { assert!(false, "gv: encoding must not fail"); true } };
+        std::mem::forget(r);
+        assert!(dest.capacity() == cap, "gv: the encoder must never grow the destination buffer");
+        assert!(done || dest.len() > 0, "gv: every round must make progress");
+        let mut i = 0;
+        while i < dest.len() { out[n] = dest[i]; n += 1; i += 1; }
+        std::mem::forget(dest);
+        rounds += 1;
+        if done { break; }
+        if rounds >= 8 { assert!(false, "gv: encoding must terminate"); break; }
+    }
+    n
+}
+
+fn chunk_body(cap: usize) {
+    let data: [u8; 5] = kani::any();
+    kani::assume(data[0] < 0x80 && data[1] < 0x80 && data[2] < 0x80 && data[3] < 0x80 && data[4] < 0x80);
+    let packet = MqttPacket::Publish(PublishPacket { topic: s_of(&data), payload: Some(data.to_vec()), ..Default::default() });
+    let (a, b, c, v): (u8, u16, u32, u32) = (kani::any(), kani::any(), kani::any(), kani::any());
+    kani::assume(v <= 268_435_455);
+    // a step list with every kind of step the encoder knows: fixed-width, VBI, string slice, byte slice
+    let mut small = Encoder { steps: VecDeque::with_capacity(8) };
+    let mut roomy = Encoder { steps: VecDeque::with_capacity(8) };
+    let mut k = 0;
+    while k < 2 {
+        let e = if k == 0 { &mut small } else { &mut roomy };
+        e.steps.push_back(EncodingStep::Uint8(a));
+        e.steps.push_back(EncodingStep::Vli(v));
+        e.steps.push_back(EncodingStep::StringSlice(get_topic_for_test, 0));
+        e.steps.push_back(EncodingStep::Uint16(b));
+        e.steps.push_back(EncodingStep::BytesSlice(get_payload_for_test, 0));
+        e.steps.push_back(EncodingStep::Uint32(c));
+        k += 1;
+    }
+    let mut o1 = [0u8; 24];
+    let mut o2 = [0u8; 24];
+    let n1 = drain(&mut small, &packet, cap, &mut o1);
+    let n2 = drain(&mut roomy, &packet, 24, &mut o2);
+    assert!(n1 == n2, "gv: the number of bytes emitted does not depend on the buffer capacity");
+    let mut i = 0;
+    while i < 24 { if i < n1 { assert!(o1[i] == o2[i], "gv: the emitted byte stream does not depend on the buffer capacity"); } i += 1; }
+    // and it is what the steps denote
+    let mut w = Sink::new();
+    w.u8(a); w.vbi(v); w.bytes(&data); w.u16(b); w.bytes(&data); w.u32(c);
+    assert!(n2 == w.n);
+    let mut i = 0;
+    while i < 24 { if i < n2 { assert!(o2[i] == w.b[i]); } i += 1; }
+    std::mem::forget(small); std::mem::forget(roomy); std::mem::forget(packet);
+}
+
+// @gv props=C02,C11 tier=thorough required=no fns=Encoder::encode,process_encoding_step,process_byte_slice_encoding,encode_vli
+// @gv bounds="a six-step list (Uint8, Vli, 5-byte string slice, Uint16, 5-byte byte slice, Uint32; all values and contents symbolic) drained through destination buffers of capacity 4 vs one roomy buffer"
+// @gv timeout=2400 mem=16
+#[kani::proof]
+#[kani::unwind(12)]
+#[kani::stub(std::fmt::format, stub_format)]
+fn c02_chunk_cap4() { chunk_body(4) }
+
+// @gv props=C02,C11 tier=thorough required=no fns=Encoder::encode,process_encoding_step,process_byte_slice_encoding,encode_vli
+// @gv bounds="as c02_chunk_cap4 with capacity 7"
+// @gv timeout=2400 mem=16
+#[kani::proof]
+#[kani::unwind(12)]
+#[kani::stub(std::fmt::format, stub_format)]
+fn c02_chunk_cap7() { chunk_body(7) }
